@@ -43,9 +43,16 @@ def flat_sol(*arrays):
     return tuple(out)
 
 
+class TooBig(Exception):
+    """the candidate space of this instance is too large to enumerate in this tier"""
+
+
 def run_instance(spec, inst):
     """-> dict(n_solutions, skipped) ; raises Failure"""
-    sols, n_dc = spec.solutions(inst)
+    try:
+        sols, n_dc = spec.solutions(inst)
+    except TooBig:
+        return dict(skipped=True, n=0)
     if n_dc:
         return dict(skipped=True, n=len(sols))
     try:
